@@ -27,6 +27,10 @@ Three families of cases on the REAL FileStorage (DESIGN 4 C08):
               committer stands at the mkdir of its blob directory while the pack cleans up emptied
               directories).  [P] no commit fails because of the pack, every returned blob reads back (also
               after reopen), pack ok.
+ (f) prepack — a connection opened before DB.pack() commits NEW objects after it; a connection created
+              afterwards must load them (MVCCMappingStorage, MappingStorage, FileStorage; deterministic).
+ (c') blobfault — OSError at every raw operation of a pack of a storage WITH blobs, then a pack to an
+              earlier time that tags nothing: every blob record still in Data.fs keeps its file.
  (c) fault  — inject an OSError at each raw mutating operation of a pack.  [P] pack raises (or the
               failure is harmless), the database is the unpacked or the packed one and usable: commit
               lock free, flag cleared (next pack not refused), loads work; `.pack` removed when the
@@ -1799,6 +1803,201 @@ def gen_blob_params(rng, i):
 
 
 # ------------------------------------------------------------------------------------------------
+# (f) connections opened BEFORE a pack keep working after it (storage-generic; natively-MVCC storages)
+# ------------------------------------------------------------------------------------------------
+def run_prepack_connection(P):
+    """deterministic: connection c1 is opened before DB.pack() and stays open; after the pack it commits NEW
+    objects; a connection created after the pack (c1 still open) must load them; so must the storage itself"""
+    kind = P.get('kind', 'mvccmapping')
+    tmp = None
+    with clock.scripted() as clk:
+        if kind == 'mvccmapping':
+            from ZODB.tests.MVCCMappingStorage import MVCCMappingStorage
+            st = MVCCMappingStorage()
+        elif kind == 'mapping':
+            from ZODB.MappingStorage import MappingStorage
+            st = MappingStorage()
+        else:
+            import tempfile
+            tmp = tempfile.mkdtemp(prefix='c08f-', dir=P.get('tmp'))
+            st = FileStorage(os.path.join(tmp, 'Data.fs'))
+        db = ZODB.DB(st)
+        problems = []
+        try:
+            tm0 = transaction.TransactionManager()
+            c0 = db.open(tm0)
+            r = c0.root()
+            r['K'] = PersistentMapping(count=0)
+            r['G'] = PersistentMapping(x=0)
+            tm0.commit()
+            for i in range(P.get('pre', 2)):
+                r['G']['x'] = i + 1
+                r['K']['s%d' % i] = PersistentMapping(v=i)
+                tm0.commit()
+            del r['G']
+            tm0.commit()
+            tm1 = transaction.TransactionManager()
+            c1 = db.open(tm1)               # opened before the pack, stays open
+            c1.root()['K']['count']
+            t = clk.now + 0.5
+            r['K']['count'] = 1
+            tm0.commit()
+            if P.get('close_first'):
+                c0.close()
+            db.pack(t)
+            created = []
+            for i in range(P.get('after', 2)):
+                tm1.begin()
+                K = c1.root()['K']
+                child = PersistentMapping(v=500 + i)
+                K['after%d' % i] = child
+                tm1.commit()
+                created.append(('after%d' % i, 500 + i, child._p_oid))
+            tm2 = transaction.TransactionManager()
+            c2 = db.open(tm2)               # created after the pack, while c1 is still open
+            for name, v, oid in created:
+                try:
+                    if c2.root()['K'][name]['v'] != v:
+                        problems.append(('wrong-data', 'K[%r] has the wrong value in a new connection' % name))
+                except POSKeyError:
+                    problems.append(('lost-object', 'object %s committed after the pack through a connection opened '
+                                     'before it does not load in a new connection (POSKeyError)' % name))
+                base = getattr(db.storage, '_storage', db.storage)
+                try:
+                    if base.loadBefore(oid, b'\xff' * 8) is None:
+                        raise POSKeyError(oid)
+                except POSKeyError:
+                    problems.append(('lost-object', 'the storage does not hold object %s committed after the pack'
+                                     % name))
+            c2.close()
+            c1.close()
+        except Exception as e:              # noqa: B902
+            problems.append(('escaped:%s' % type(e).__name__, repr(e)))
+        finally:
+            try:
+                db.close()
+            except Exception:               # noqa: B902
+                pass
+            if tmp:
+                shutil.rmtree(tmp, ignore_errors=True)
+    return problems
+
+
+def run_prepack_case(ck, case):
+    P = dict(case['P'], tmp=ck.tmp)
+    pr = run_prepack_connection(P)
+    ck.case(dict(kind='prepack', P=case['P']), True, sample=dict(kind='prepack', P=case['P']))
+    ck.count('prepack-connection:%s' % case['P'].get('kind'))
+    if pr:
+        ck.violation('C08:prepack-connection:%s:%s' % (case['P'].get('kind'), pr[0][0]),
+                     'a connection opened before DB.pack() committed new objects after it: ' + pr[0][1], case)
+
+
+# ------------------------------------------------------------------------------------------------
+# (c') failing pack of a storage WITH blobs, then a later pack that tags nothing
+# ------------------------------------------------------------------------------------------------
+def blob_fault_run(P, tmp, fail_at):
+    from ZODB.blob import Blob
+    root = os.path.join(tmp, 'bfault')
+    if os.path.exists(root):
+        shutil.rmtree(root)
+    os.makedirs(root)
+    path = os.path.join(root, 'Data.fs')
+    rec = vfs.Recorder(root)
+    o = dict(fail_at=fail_at, problems=[])
+    with clock.scripted() as clk, vfs.install(rec):
+        fs = FileStorage(path, blob_dir=os.path.join(root, 'blobs'), pack_keep_old=P.get('keep_old', True))
+        db = ZODB.DB(fs)
+        c = db.open()
+        r = c.root()
+        r['x'] = PersistentMapping(v=0)
+        r['B'] = Blob(b'blob revision 1')
+        transaction.commit()
+        r['x']['v'] = 1
+        transaction.commit()
+        t0 = clk.now + 0.5                  # B's first revision is current here; x has a superseded one
+        with r['B'].open('w') as f:
+            f.write(b'blob revision 2')
+        r['x']['v'] = 2
+        transaction.commit()
+        t1 = clk.now + 0.5                  # B's first revision is superseded here: a pack tags its file
+        if P.get('garbage'):
+            r['G'] = Blob(b'garbage blob')
+            transaction.commit()
+            del r['G']
+            transaction.commit()
+            t1 = clk.now + 0.5
+        r['x']['v'] = 3
+        transaction.commit()
+        rec.events.clear()
+        rec.nmut = 0
+        rec.fail_at = fail_at
+        try:
+            db.pack(t1)
+            o['pack'] = 'ok'
+        except Exception as e:              # noqa: B902
+            o['pack'] = 'raised:%s' % type(e).__name__
+        rec.fail_at = None
+        o['nops'] = rec.nmut
+        fault = [e for e in rec.events if e[0] == 'fault']
+        o['fault'] = list(fault[0][2:4]) if fault else None
+        try:
+            # a later pack to an EARLIER time: it frees x's first revision but tags no blob revision itself
+            try:
+                db.pack(t0)
+                o['pack2'] = 'ok'
+            except Exception as e:          # noqa: B902
+                o['pack2'] = 'raised:%s' % type(e).__name__
+                o['problems'].append(('unusable', 'a pack after the failed pack raised %s: %s' % (type(e).__name__, e)))
+            # every blob record still in Data.fs has its file; the current blob reads
+            for t in fs.iterator():
+                for x in t:
+                    if x.data and fs.is_blob_record(x.data):
+                        try:
+                            fs.loadBlob(x.oid, x.tid)
+                        except POSKeyError:
+                            o['problems'].append(('blob-file-removed', 'the blob file of revision %s of object %s, '
+                                                  'still in Data.fs, is gone' % (x.tid.hex()[-6:], x.oid.hex()[-4:])))
+            c.sync()
+            with c.root()['B'].open('r') as f:
+                if f.read() != b'blob revision 2':
+                    o['problems'].append(('wrong-data', 'the current blob has wrong data'))
+            c.root()['x']['v'] = 4
+            transaction.commit()
+        except Exception as e:              # noqa: B902
+            transaction.abort()
+            o['problems'].append(('unusable', 'after the failed pack: %s: %s' % (type(e).__name__, e)))
+        try:
+            db.close()
+        except Exception:                   # noqa: B902
+            pass
+    return o
+
+
+def run_blob_fault_scenario(ck, P, only=None):
+    base = blob_fault_run(P, ck.tmp, None)
+    if base['pack'] != 'ok' or base['problems']:
+        ck.violation('C08:blob-pack-without-fault-failed', 'packs of a blob storage without injected fault: %r %r'
+                     % (base['pack'], base['problems']), dict(kind='blobfault', P=P, fail_at=None))
+        return
+    for k in ([only] if only is not None else range(1, base['nops'] + 1)):
+        o = blob_fault_run(P, ck.tmp, k)
+        nontriv = o['fault'] is not None and o['pack'] != 'ok'
+        ck.case(dict(kind='blobfault', P=P, fail_at=k), nontriv,
+                sample=dict(kind='blobfault', P=P, fail_at=k, fault=o['fault'], pack=o['pack']) if nontriv else None)
+        f = o['fault'] or ['none', 'none']
+        cat = ('blobs.old' if str(f[1]).startswith('blobs.old') else '.removed' if str(f[1]).endswith('.removed')
+               else 'blobs' if str(f[1]).startswith('blobs') else str(f[1]).replace('Data.fs', 'data'))
+        ck.count('blobfault-op:%s-%s' % (f[0], cat))
+        ck.count('blobfault-outcome:%s' % o['pack'])
+        if o['problems']:
+            sym, text = o['problems'][0]
+            ck.violation('C08:blobfault-%s-%s:%s' % (f[0], cat, sym),
+                         'OSError injected at raw operation %d (%s) of a pack of a storage with blobs, then a pack to '
+                         'an earlier time: %s' % (k, o['fault'], text), dict(kind='blobfault', P=P, fail_at=k))
+
+
+# ------------------------------------------------------------------------------------------------
 # generators
 # ------------------------------------------------------------------------------------------------
 def gen_sched_params(rng, i):
@@ -2177,6 +2376,10 @@ def _run_case(ck, case):
         run_mapping_case(ck, case)
     elif kind == 'blob':
         run_blob_case(ck, case)
+    elif kind == 'prepack':
+        run_prepack_case(ck, case)
+    elif kind == 'blobfault':
+        run_blob_fault_scenario(ck, case['P'], only=case.get('fail_at'))
     else:
         raise InfraError('unknown case kind %r' % kind)
 
@@ -2216,6 +2419,10 @@ def main(argv=None):
         cases += [dict(kind='fault', P=gen_fault_params(ck.rng, i)) for i in range(nfault)]
         nblob = 40 if not ck.thorough else 1000
         cases += [dict(kind='blob', P=gen_blob_params(ck.rng, i)) for i in range(nblob)]
+        cases += [dict(kind='blobfault', P=dict(keep_old=ko, garbage=g))
+                  for ko in (True, False) for g in ((0, 1) if ck.thorough else (ko,))]
+        cases += [dict(kind='prepack', P=dict(kind=kd, pre=pre, after=2, close_first=cf))
+                  for kd in ('mvccmapping', 'mapping', 'file') for pre in (1, 3) for cf in (0, 1)]
         nmap = 60 if not ck.thorough else 1500
         cases += [dict(kind='mapping', P=gen_mapping_params(ck.rng, i)) for i in range(nmap)]
         cases += [dict(kind='mapping', mode='callback', P=dict(ptime=pt, pre=pre, at=at))
